@@ -277,7 +277,10 @@ def gen_config(rng, profile='C01'):
         if profile != 'C02' else g.pick(['quasi-Kinnersley', 'other'])
     cfg['vacuum'] = False
     variant = g.weighted([('generic', 6), ('zero_shift', 2),
-                          ('betax_zero', 2)])
+                          ('betax_zero', 2), ('only_betay', 1)])
+    weak = cls == 'HOM' and g.chance(0.08)
+    if weak:
+        cfg['Lambda'] = 0.0
     if cls in ('HOM', 'ON'):
         for _ in range(50):
             spec = st.gen_metric_spec(g, cls, param)
@@ -289,11 +292,21 @@ def gen_config(rng, profile='C01'):
                     m['A'][0][1] = m['A'][1][0] = 0.0
                     for (a, b) in ((1, 2), (1, 3), (2, 3)):
                         m['A'][a][b] = m['A'][b][a] = 0.0
+                if variant == 'only_betay':
+                    m['A'][0][1] = m['A'][1][0] = 0.0
+                    m['A'][0][3] = m['A'][3][0] = 0.0
+                    for (a, b) in ((1, 2), (1, 3), (2, 3)):
+                        m['A'][a][b] = m['A'][b][a] = 0.0
+                if weak:
+                    # weakly curved data (|R_ab| << 1e-8): absolute
+                    # tolerances must not decide anything
+                    m['A'] = [[1e-8 * x for x in row] for row in m['A']]
             gm, _, _ = st.eval_metric(spec, param)
             if st.admissible(gm):
                 break
         cfg['spec'] = spec
         cfg['variant'] = variant
+        cfg['weak_field'] = bool(weak)
     elif cls == 'KASNER':
         u = g.uniform(1.0, 3.0)
         den = 1 + u + u * u
@@ -317,8 +330,8 @@ def gen_config(rng, profile='C01'):
         # Psi4 given directly
         cfg['fluid_alt'] = g.weighted([('none', 6), ('rho+eps', 1),
                                        ('rho+rho0', 1), ('rho', 1)])
-        cfg['extra_inputs'] = g.subset(['Tdown4', 'Weyl_Psi4'], 0.0, 0.5) \
-            if g.chance(0.25) else []
+        cfg['extra_inputs'] = g.subset(['Tdown4', 'Weyl_Psi4', 'uup4'],
+                                       0.0, 0.5) if g.chance(0.3) else []
         cfg['metric_inputs'] = g.subset(
             ['alpha', 'dtalpha', 'betaup3', 'dtbetaup3', 'gammadown3',
              'Kdown3'], 0.5, 1.0, nonempty=True)
@@ -335,6 +348,10 @@ def gen_config(rng, profile='C01'):
         how['betaup3'] = 'components'
         how['dtbetaup3'] = 'components'
         omit += ['betax', 'dtbetax']
+    if cls in ('HOM', 'ON') and variant == 'only_betay':
+        how['betaup3'] = 'components'
+        how['dtbetaup3'] = 'components'
+        omit += ['betax', 'dtbetax', 'betaz', 'dtbetaz']
     if cls == 'KASNER':
         omit += ['betaup3', 'dtbetaup3', 'alpha', 'dtalpha']
         if cfg['vacuum'] or g.chance(0.5):
@@ -422,6 +439,11 @@ class World:
                             0.3 * X + 0.1 * (a + 1) * Y - 0.2 * (b + 1) * Z) \
                             + (0.5 if a == b else 0.0)
                 inputs['Tdown4'] = T
+            if 'uup4' in cfg.get('extra_inputs', []):
+                # a user-supplied 4-velocity (close to, not exactly, unit)
+                inputs['uup4'] = np.array([
+                    1.05 + 0.02 * np.sin(0.2 * X), 0.1 * np.cos(0.3 * Y),
+                    0.05 * np.sin(0.1 * Z + 0.2 * X), 0.02 + 0.0 * X])
             if 'Weyl_Psi4' in cfg.get('extra_inputs', []):
                 inputs['Weyl_Psi4r'] = 0.01 * np.cos(0.2 * X - 0.3 * Y)
                 inputs['Weyl_Psi4i'] = 0.01 * np.sin(0.1 * Z + 0.2 * X)
@@ -556,6 +578,13 @@ def gen_ops(rng, cfg, profile='C01', nmax=24):
     requested = []
     for _ in range(n):
         r = g.random()
+        if r < {'C03': 0.10, 'C01': 0.03}.get(profile, 0.02) \
+                and cfg.get('freeze') == 'load_data':
+            # the documented route again: load (part of) the same data once
+            # more, e.g. matter after the metric; nothing frozen may go away
+            ops.append({'op': 'LOAD_MORE', 'frac': g.pick([0.3, 0.6, 1.0]),
+                        'seed': g.randrange(1 << 30)})
+            continue
         if r < 0.08:
             nm, args, kw = g.pick(HELPER_SPECS)
             ops.append({'op': 'HELPER', 'name': nm, 'args': args, 'kw': kw})
@@ -703,6 +732,23 @@ class Engine:
             cc0 = rel.calculation_count
             hit = op['op'] == 'GET' and op['key'] in rel.data
             cached_before = set(rel.data)
+            if op['op'] == 'LOAD_MORE':
+                import random as _r
+                ks = sorted(arrays)
+                _r.Random(op['seed']).shuffle(ks)
+                ks = sorted(ks[:max(1, int(len(ks) * op['frac']))])
+                try:
+                    rel.load_data({k: [arrays[k]] for k in ks}, 0)
+                except Exception as e:  # noqa: BLE001
+                    self.viol.append({
+                        'prop': 'C03', 'sig': f'load_data:raised:'
+                        f'{type(e).__name__}', 'op': opi,
+                        'msg': f'op#{opi} load_data of {ks} raised {e}'})
+                self.fault('load_data_again')
+                self.tr.event('load_more', keys=ks)
+                self._c03(rel, m, frozen, frozen_obj, ids_before, [], opi,
+                          'LOAD_MORE', ('ok', None))
+                continue
             if op['op'] == 'TOUCH_ALL':
                 # the user looks at everything that is cached (pure hits):
                 # from now on all of it counts as handed out (C02 registry)
